@@ -204,6 +204,14 @@ def r_kind(ctx, rule='R-KIND'):
                         n += 1
                         ks = K.of(f, c.arg_term(i), c.bb)
                         key = '%s/%s#%d' % (f.path, short(c.callee), n)
+                        a0 = strip(c.arg_term(i))
+                        core = strip(a0[1]) if a0[0] == 'field' else ('unknown',)
+                        while core[0] in ('try', 'downcast') or (core[0] == 'field' and core[2] == '0'):
+                            core = strip(core[1])
+                        if 'D' in ks and a0[0] == 'field' and a0[2] == 'item' and core[0] in ('var', 'phi', 'arg', 'field'):
+                            # `x.item` of a link whose kind is only known from `x.mode`: the sink needs a dominating test of that very node
+                            ctx.bad(rule, key + '/unguarded', c.loc(), '`%s(%s)` in `%s` uses the id of a node link as %s id without a dominating test of that link\'s own mode: when the link is %s the wrong entry is addressed' % (
+                                short(c.callee), show(a0)[:60], f.path, 'an item' if want == 'I' else 'a tree-node', 'a tree node' if want == 'I' else 'a bare item'))
                         ctx.check(other not in ks, rule, key, c.loc(), '%s-sink fed with kinds %s' % (want, sorted(ks)),
                                   '`%s` in `%s` expects %s id but may receive %s id: %s (a tree-node id used as an item id, or vice versa, corrupts the forest)' % (
                                       short(c.callee), f.path, 'an item' if want == 'I' else 'a tree-node', 'a tree-node' if want == 'I' else 'an item', show(c.arg_term(i))[:120]))
@@ -435,6 +443,84 @@ def r_push_sorted(ctx, rule='R-PUSH-SORTED'):
             ctx.check(used or ascending, rule, key, c.loc(), 'pushed value comes from an ascending iteration' if ascending else 'push result is checked',
                       '`RoaringBitmap::push` in `%s` is fed with %s, which is not taken from an ascending iteration, and its result is ignored: the value is silently dropped unless it is larger than everything already in the bitmap' % (f.path, show(v)[:80]))
     ctx.floor(rule, 'RoaringBitmap::push sites', n, 3)
+
+
+# --------------------------------------------------------------------------- R-BATCH-SETS
+def r_batch_sets(ctx, rule='R-BATCH-SETS'):
+    """the id sets the build hands to its passes: removal gets every updated id (an overwritten item must leave its old
+    bucket before it is inserted again), insertion gets live & updated, a tree created from scratch gets every live id"""
+    F = ctx.F
+    be = C06.build_entry(F)
+    if not ctx.need(be is not None, rule, 'build entry'):
+        return
+    # roles: L = the live item scan, U = the updated-mark scan (the functions, found by what they do)
+    Ls, Us = set(), set()
+    for c in be.calls():
+        for h in F.resolve_call(c):
+            if h.path == be.path or not h.ret_ty().endswith('RoaringBitmap, error::Error>') and 'RoaringBitmap' not in h.ret_ty():
+                continue
+            fam = F.family(h)
+            scans = [(key_info(x.arg_term(2)) or (None,))[0] for hh in fam for x in hh.calls() if 'prefix_iter' in x.callee]
+            if scans == ['p-item']:
+                Ls.add(h.path)
+            if any(C06.scan_loops(F, hh, 'p-updated') for hh in fam):
+                Us.add(h.path)
+    if not ctx.need(len(Ls) == 1 and len(Us) == 1, rule, 'live-item scan and updated-mark scan called by the build entry (found %s / %s)' % (sorted(Ls), sorted(Us))):
+        return
+    L, U = list(Ls)[0], list(Us)[0]
+
+    def setexpr(t):
+        t0 = t if isinstance(t, tuple) else ('unknown',)
+        if t0[0] == 'call':
+            if t0[1] == L:
+                return 'L'
+            if t0[1] == U:
+                return 'U'
+            if t0[1].endswith('BitAnd::bitand') and len(t0[2]) == 2:
+                return ('and', frozenset([setexpr(t0[2][0]), setexpr(t0[2][1])]))
+            if t0[1].endswith('BitOr::bitor') and len(t0[2]) == 2:
+                return ('or', frozenset([setexpr(t0[2][0]), setexpr(t0[2][1])]))
+            if t0[1].endswith('ops::Sub::sub') and len(t0[2]) == 2:
+                return ('sub', setexpr(t0[2][0]), setexpr(t0[2][1]))
+        if t0[0] == 'agg' and t0[1].endswith('borrow::Cow') and t0[3]:
+            return setexpr(t0[3][0][1])
+        return ('?', repr(t0)[:80])
+
+    def bitmap_args(c):
+        g = F.fn(c.callee)
+        out = []
+        if g is None:
+            return out
+        for i in range(len(c.args)):
+            if i + 1 < len(g.locals) and 'RoaringBitmap' in g.local_ty(i + 1) and 'ConcurrentNodeIds' not in g.local_ty(i + 1):
+                out.append(setexpr(strip_all(c.arg_term(i))))
+        return out
+    dels = [c for c in be.calls() if c.callee.endswith('::delete_items_from_trees')]
+    inss = [c for c in be.calls() if c.callee.endswith('::insert_items_in_current_trees')]
+    if ctx.need(len(dels) == 1, rule, 'removal pass call in the build entry'):
+        got = bitmap_args(dels[0])
+        ctx.check(got == ['U'], rule, be.path + '/removal-set', dels[0].loc(), 'the removal pass receives every updated id',
+                  'the removal pass of `%s` does not receive exactly the updated ids (%s): an overwritten or deleted item could stay in its old bucket (and be inserted a second time)' % (be.path, got))
+    if ctx.need(len(inss) == 1, rule, 'insertion pass call in the build entry'):
+        got = bitmap_args(inss[0])
+        ctx.check(got == [('and', frozenset(['L', 'U']))], rule, be.path + '/insertion-set', inss[0].loc(), 'the insertion pass receives live & updated',
+                  'the insertion pass of `%s` does not receive exactly the live updated ids (%s)' % (be.path, got))
+    # trees created from scratch
+    n = 0
+    for (_g, c, op, w, k) in db_ops(F, [be]):
+        if op != 'put' or k is None:
+            continue
+        ki = key_info(c.arg_term(k))
+        if not ki or ki[0] != 'tree' or not any(x[0] == 'call' and x[1].endswith('ConcurrentNodeIds::next') for x in walk(ki[2])):
+            continue
+        d = paths.agg_fields(c.arg_term(3), 'node::Descendants')
+        if not d:
+            continue
+        n += 1
+        got = setexpr(strip_all(d['descendants']))
+        ctx.check(got == 'L', rule, be.path + '/new-tree-set', c.loc(), 'a tree created from scratch starts from every live id',
+                  'a new tree created by `%s` does not start from the full live item set (%s): it would never cover the other items' % (be.path, got))
+    ctx.floor(rule, 'from-scratch tree creations in the build entry', n, 1)
 
 
 # --------------------------------------------------------------------------- R-FRESH
@@ -684,6 +770,31 @@ def r_forest_wipe(ctx, rule='R-FOREST-WIPE'):
             ok_push = bool(pushes) and all(g.dominates(rp.bb, p.bb) for p in pushes for rp in root_puts) and all(
                 paths.must_pass(g, (paths.result_arms(g, rp).get('ok') or rp.target), goals, [p.bb for p in pushes]) for rp in root_puts)
             ctx.check(ok_push, rule, g.path + '/root-listed', c.loc(), 'root 0 is listed exactly when the bucket is written', 'the shortcut lists a root that was not written (or writes one it does not list)')
+            # the bucket is written whenever there is at least one item: the only guard allowed on it is "items non-empty"
+            for rp in root_puts:
+                d = paths.agg_fields(rp.arg_term(3), 'node::Descendants')
+                items_t = strip_all(d['descendants']) if d else None
+                okg = True
+                why = []
+                for s0, x0, e in paths.controlling_conds(g, rp.bb):
+                    if e[0] == 'disc':
+                        # `?` continuations of earlier calls
+                        continue
+                    cnd = strip(e[1])
+                    nonempty = False
+                    if cnd[0] == 'call' and cnd[1].endswith('::is_empty') and not e[2]:
+                        nonempty = True
+                    elif cnd[0] == 'unop' and cnd[1] == 'Not' and strip(cnd[2])[0] == 'call' and strip(cnd[2])[1].endswith('::is_empty') and e[2]:
+                        nonempty = True
+                    elif cnd[0] == 'binop' and strip(cnd[2])[0] == 'call' and strip(cnd[2])[1].endswith('::len') and const_eval(cnd[3]) == 0 and (cnd[1], e[2]) in (('Gt', True), ('Ne', True), ('Eq', False), ('Le', False)):
+                        nonempty = True
+                    elif cnd[0] == 'binop' and strip(cnd[2])[0] == 'call' and strip(cnd[2])[1].endswith('::len') and const_eval(cnd[3]) == 1 and (cnd[1], e[2]) in (('Ge', True), ('Lt', False)):
+                        nonempty = True
+                    if not nonempty:
+                        okg = False
+                        why.append(show(cnd)[:60])
+                ctx.check(okg, rule, g.path + '/bucket-when-nonempty', rp.loc(), 'the only bucket is written whenever the item set is non-empty',
+                          'the single-bucket shortcut in `%s` skips its bucket under a condition other than "no items" (%s): live items would be in no tree' % (g.path, why))
     ctx.floor(rule, 'single-bucket shortcuts', found, 1)
 
 
